@@ -236,6 +236,18 @@ def quatMul (a b : OmplModel.St α) : OmplModel.St α :=
        (w0 * z1 + z0 * w1 + x0 * y1 - y0 * x1)
        (w0 * w1 - x0 * x1 - y0 * y1 - z0 * z1)
 
+/-- `quaternionProduct(q, q0, q1)` when `q` ALIASES `q0` (SO3StateSampler::sampleUniformNear / sampleGaussian called with
+`state == near`): the four assignments run in order and each later one reads the components already overwritten
+(finding F77; kept for the witness `so3_sampler_aliased_not_unit`) -/
+def quatMulAliased (a b : OmplModel.St α) : OmplModel.St α :=
+  let (x0, y0, z0, w0) := (St.qx a, St.qy a, St.qz a, St.qw a)
+  let (x1, y1, z1, w1) := (St.qx b, St.qy b, St.qz b, St.qw b)
+  let x := w0 * x1 + x0 * w1 + y0 * z1 - z0 * y1        -- q.x (= q0.x from now on)
+  let y := w0 * y1 + y0 * w1 + z0 * x1 - x * z1         -- reads the new q0.x
+  let z := w0 * z1 + z0 * w1 + x * y1 - y * x1          -- reads the new q0.x, q0.y
+  let w := w0 * w1 - x * x1 - y * y1 - z * z1           -- reads the new q0.x, q0.y, q0.z
+  .so3 x y z w
+
 def so3Uniform (R : Rng α) (p : Pos) : OmplModel.St α × Pos :=
   (rngQuaternion (R.u p.ui) (R.u (p.ui + 1)) (R.u (p.ui + 2)), { p with ui := p.ui + 3 })
 
